@@ -51,6 +51,7 @@ type row struct {
 	Chunks  []refcodec.Layout              `json:"chunks,omitempty"`
 	CKey    string                         `json:"ckey,omitempty"` // client / server key pair names (default 2048a / 2048b)
 	SKey    string                         `json:"skey,omitempty"`
+	Peer    string                         `json:"peer,omitempty"` // "" | "refclient" | "refserver": the reference codec plays one end
 }
 
 // what is reported as the case of a result (the chunk list is dropped to keep evidence small)
@@ -90,6 +91,9 @@ func main() {
 			r.SKey = "2048b"
 		}
 		k := fmt.Sprintf("%s/%s/%d/%s/%s", r.Pol, r.Mode, r.Cs, r.CKey, r.SKey)
+		if r.Peer != "" {
+			k += fmt.Sprintf("/%s/%d", r.Peer, r.N)
+		}
 		if _, ok := groups[k]; !ok {
 			order = append(order, k)
 		}
@@ -115,9 +119,17 @@ func main() {
 			defer wg.Done()
 			for k := range ch {
 				g := groups[k]
+				if tooMany(id(g[0], "", "")) {
+					continue
+				}
 				var err error
 				for try := 0; try < 3; try++ { // socket trouble: fresh pair
-					if err = runGroup(g); err == nil {
+					if g[0].Peer != "" {
+						err = runPeer(g[0])
+					} else {
+						err = runGroup(g)
+					}
+					if err == nil {
 						break
 					}
 					time.Sleep(200 * time.Millisecond)
@@ -135,6 +147,30 @@ func main() {
 	}
 	close(ch)
 	wg.Wait()
+}
+
+// fail fast: a broken tree makes every row fail after a time-out; a few failing cases per group
+// and a bounded number overall are enough for the verdict.
+var (
+	violTotal int32
+	violMu    sync.Mutex
+	violGroup = map[string]int{}
+)
+
+func gkey(c caseID) string { return fmt.Sprintf("%s/%s/%d/%s/%s", c.Pol, c.Mode, c.Cs, c.CKey, c.SKey) }
+
+func violation(c caseID, class, key, detail string) {
+	violMu.Lock()
+	violGroup[gkey(c)]++
+	violTotal++
+	violMu.Unlock()
+	vfgo.Violation(c, class, key, detail)
+}
+
+func tooMany(c caseID) bool {
+	violMu.Lock()
+	defer violMu.Unlock()
+	return violGroup[gkey(c)] >= 2 || violTotal >= 30
 }
 
 func id(r row, dir, via string) caseID {
@@ -233,7 +269,7 @@ func runGroup(g []row) error {
 		return &uacp.Acknowledge{ReceiveBufSize: uint32(r0.Cs), SendBufSize: uint32(r0.Cs), MaxChunkCount: 8192, MaxMessageSize: 1 << 28}
 	}
 	p, err := chanpair.Open(chanpair.Opts{Policy: r0.Pol, Mode: r0.Mode, ClientKey: r0.CKey, ServerKey: r0.SKey,
-		ClientACK: ack(), ServerACK: ack(), Tap: cap.tap, RequestTimeout: 20 * time.Second})
+		ClientACK: ack(), ServerACK: ack(), Tap: cap.tap, RequestTimeout: 6 * time.Second})
 	if err != nil {
 		return err
 	}
@@ -278,9 +314,9 @@ func runGroup(g []row) error {
 		sn, o2, err2 := openOPN(ap, ck.Key, opnResp, false)
 		cls := fmt.Sprintf("opn/%s/ck=%s/sk=%s", r0.Pol, r0.CKey, r0.SKey)
 		if err1 != nil {
-			vfgo.Violation(id(r0, "c2s", "gopcua"), cls, "opn-request-not-opened-by-reference", "reference codec cannot open gopcua's OPN request: "+err1.Error())
+			violation(id(r0, "c2s", "gopcua"), cls, "opn-request-not-opened-by-reference", "reference codec cannot open gopcua's OPN request: "+err1.Error())
 		} else if err2 != nil {
-			vfgo.Violation(id(r0, "s2c", "gopcua"), cls, "opn-response-not-opened-by-reference", "reference codec cannot open gopcua's OPN response: "+err2.Error())
+			violation(id(r0, "s2c", "gopcua"), cls, "opn-response-not-opened-by-reference", "reference codec cannot open gopcua's OPN response: "+err2.Error())
 		} else {
 			kc, ks, err = refcodec.DeriveKeys(sp, cn, sn)
 			if err != nil {
@@ -293,6 +329,9 @@ func runGroup(g []row) error {
 	}
 
 	for i, r := range g {
+		if tooMany(id(r, "", "")) {
+			break
+		}
 		salt := byte(i*31 + 1)
 		cls := func(dir string) string {
 			last := "short"
@@ -308,7 +347,7 @@ func runGroup(g []row) error {
 			bound := r.Cs - 24 - r.Chunks[0].Sig
 			bad := r.Mode == "SignAndEncrypt" || int(mbC) > bound || int(mbS) > bound || mbC == 0 || mbS == 0
 			if bad {
-				vfgo.Violation(id(r, "both", "gopcua"), cls("maxbody"), "maxbody-differs-from-spec",
+				violation(id(r, "both", "gopcua"), cls("maxbody"), "maxbody-differs-from-spec",
 					fmt.Sprintf("chunk size %d %s/%s: channel maxBodySize client=%d server=%d, specification MaxBody=%d (largest body that fits: %d)", r.Cs, r.Pol, r.Mode, mbC, mbS, r.MaxBody, bound))
 				continue
 			}
@@ -326,7 +365,7 @@ func runGroup(g []row) error {
 			}}
 			setWant(w)
 			mark := cap.mark("c2s")
-			ctx, cancel := context.WithTimeout(context.Background(), 20*time.Second)
+			ctx, cancel := context.WithTimeout(context.Background(), 8*time.Second)
 			serr := p.Client.SendRequest(ctx, req, nil, func(ua.Response) error { return nil })
 			cancel()
 			var got *uasc.MessageBody
@@ -369,7 +408,7 @@ func runGroup(g []row) error {
 			mark := cap.mark("s2c")
 			var delivered []byte
 			derr := ""
-			ctx, cancel := context.WithTimeout(context.Background(), 20*time.Second)
+			ctx, cancel := context.WithTimeout(context.Background(), 8*time.Second)
 			serr := p.Client.SendRequest(ctx, chanpair.ReadReq(0, 2258), nil, func(resp ua.Response) error {
 				if q, ok := resp.(*ua.ReadResponse); ok && len(q.Results) == 1 && q.Results[0].Value != nil {
 					delivered, _ = q.Results[0].Value.Value().([]byte)
@@ -469,7 +508,7 @@ func judge(r row, dir, class string, frames [][]byte, sent, delivered []byte, de
 	}
 	obs["exact"] = exact
 	if len(frames) == 0 {
-		vfgo.Violation(c, class, "nothing-sent", fmt.Sprintf("body %d: no chunk on the wire (%s)", r.N, derr))
+		violation(c, class, "nothing-sent", fmt.Sprintf("body %d: no chunk on the wire (%s)", r.N, derr))
 		return
 	}
 	for i, f := range frames {
@@ -477,25 +516,25 @@ func judge(r row, dir, class string, frames [][]byte, sent, delivered []byte, de
 		last := i == len(frames)-1
 		switch {
 		case len(f) > r.Cs:
-			vfgo.Violation(c, class, "chunk-exceeds-chunk-size", fmt.Sprintf("body %d, maxBodySize %d: chunk %d/%d has %d bytes, negotiated chunk size %d (%s)", r.N, r.MaxBody, i+1, len(frames), len(f), r.Cs, lens(frames)))
+			violation(c, class, "chunk-exceeds-chunk-size", fmt.Sprintf("body %d, maxBodySize %d: chunk %d/%d has %d bytes, negotiated chunk size %d (%s)", r.N, r.MaxBody, i+1, len(frames), len(f), r.Cs, lens(frames)))
 			return
 		case ms != len(f):
-			vfgo.Violation(c, class, "messagesize-differs-from-length", fmt.Sprintf("chunk %d/%d: MessageSize %d, length %d", i+1, len(frames), ms, len(f)))
+			violation(c, class, "messagesize-differs-from-length", fmt.Sprintf("chunk %d/%d: MessageSize %d, length %d", i+1, len(frames), ms, len(f)))
 			return
 		case !last && f[3] != 'C':
-			vfgo.Violation(c, class, "intermediate-chunk-marked-final", fmt.Sprintf("chunk %d/%d is marked %q (%s)", i+1, len(frames), f[3:4], lens(frames)))
+			violation(c, class, "intermediate-chunk-marked-final", fmt.Sprintf("chunk %d/%d is marked %q (%s)", i+1, len(frames), f[3:4], lens(frames)))
 			return
 		case last && f[3] != 'F':
-			vfgo.Violation(c, class, "last-chunk-not-final", fmt.Sprintf("chunk %d/%d is marked %q (%s)", i+1, len(frames), f[3:4], lens(frames)))
+			violation(c, class, "last-chunk-not-final", fmt.Sprintf("chunk %d/%d is marked %q (%s)", i+1, len(frames), f[3:4], lens(frames)))
 			return
 		case r.Mode == "SignAndEncrypt" && (len(f)-16)%sp.CB != 0:
-			vfgo.Violation(c, class, "ciphertext-not-block-aligned", fmt.Sprintf("chunk %d/%d: %d bytes after the security header, cipher block %d", i+1, len(frames), len(f)-16, sp.CB))
+			violation(c, class, "ciphertext-not-block-aligned", fmt.Sprintf("chunk %d/%d: %d bytes after the security header, cipher block %d", i+1, len(frames), len(f)-16, sp.CB))
 			return
 		}
 	}
 	// C38 tightness: in SignAndEncrypt mode MaxBody+1 bytes cannot be one chunk (the specification proves it does not fit)
 	if r.Mode == "SignAndEncrypt" && r.N > r.MaxBody && len(frames) == 1 {
-		vfgo.Violation(c, class, "body-above-maximum-in-one-chunk", fmt.Sprintf("body %d > MaxBody %d sent as one chunk of %d bytes", r.N, r.MaxBody, len(frames[0])))
+		violation(c, class, "body-above-maximum-in-one-chunk", fmt.Sprintf("body %d > MaxBody %d sent as one chunk of %d bytes", r.N, r.MaxBody, len(frames[0])))
 		return
 	}
 	if r.Mode != "SignAndEncrypt" {
@@ -505,7 +544,7 @@ func judge(r row, dir, class string, frames [][]byte, sent, delivered []byte, de
 			sum += len(f) - 24 - r.Chunks[0].Sig
 		}
 		if sum != r.N {
-			vfgo.Violation(c, class, "chunk-bodies-do-not-add-up", fmt.Sprintf("body %d: the chunk bodies on the wire add up to %d (%s)", r.N, sum, lens(frames)))
+			violation(c, class, "chunk-bodies-do-not-add-up", fmt.Sprintf("body %d: the chunk bodies on the wire add up to %d (%s)", r.N, sum, lens(frames)))
 			return
 		}
 	}
@@ -516,15 +555,15 @@ func judge(r row, dir, class string, frames [][]byte, sent, delivered []byte, de
 		for i, f := range frames {
 			o, err := refcodec.OpenSym(sp, r.Mode, k, f)
 			if err != nil {
-				vfgo.Violation(c, class, "chunk-not-opened-by-reference", fmt.Sprintf("chunk %d/%d (%d bytes): %v", i+1, len(frames), len(f), err))
+				violation(c, class, "chunk-not-opened-by-reference", fmt.Sprintf("chunk %d/%d (%d bytes): %v", i+1, len(frames), len(f), err))
 				return
 			}
 			if exact && !o.Observed.Equal(r.Chunks[i]) {
-				vfgo.Violation(c, class, "chunk-layout-differs-from-spec", fmt.Sprintf("chunk %d/%d: observed %+v, specification %+v", i+1, len(frames), o.Observed, r.Chunks[i]))
+				violation(c, class, "chunk-layout-differs-from-spec", fmt.Sprintf("chunk %d/%d: observed %+v, specification %+v", i+1, len(frames), o.Observed, r.Chunks[i]))
 				return
 			}
 			if i > 0 && o.Seq != lastSeq+1 {
-				vfgo.Violation(c, class, "sequence-number-not-consecutive", fmt.Sprintf("chunk %d/%d: sequence number %d after %d", i+1, len(frames), o.Seq, lastSeq))
+				violation(c, class, "sequence-number-not-consecutive", fmt.Sprintf("chunk %d/%d: sequence number %d after %d", i+1, len(frames), o.Seq, lastSeq))
 				return
 			}
 			lastSeq = o.Seq
@@ -532,18 +571,18 @@ func judge(r row, dir, class string, frames [][]byte, sent, delivered []byte, de
 			recs = append(recs, symRec(r, o.Observed))
 		}
 		if len(cat) != r.N || !bytes.Contains(cat, sent) {
-			vfgo.Violation(c, class, "reference-reassembly-differs", fmt.Sprintf("bodies opened by the reference codec: %d bytes, message %d bytes, payload found: %v", len(cat), r.N, bytes.Contains(cat, sent)))
+			violation(c, class, "reference-reassembly-differs", fmt.Sprintf("bodies opened by the reference codec: %d bytes, message %d bytes, payload found: %v", len(cat), r.N, bytes.Contains(cat, sent)))
 			return
 		}
 		obs["opened_by_reference"] = true
 		obs["sym"] = recs
 	}
 	if derr != "" {
-		vfgo.Violation(c, class, "peer-does-not-deliver", fmt.Sprintf("body %d (%d chunks %s): %s", r.N, len(frames), lens(frames), derr))
+		violation(c, class, "peer-does-not-deliver", fmt.Sprintf("body %d (%d chunks %s): %s", r.N, len(frames), lens(frames), derr))
 		return
 	}
 	if !bytes.Equal(sent, delivered) {
-		vfgo.Violation(c, class, "peer-delivers-different-message", fmt.Sprintf("body %d (%d chunks): payload sent %d bytes, delivered %d bytes, first difference at %d", r.N, len(frames), len(sent), len(delivered), firstDiff(sent, delivered)))
+		violation(c, class, "peer-delivers-different-message", fmt.Sprintf("body %d (%d chunks): payload sent %d bytes, delivered %d bytes, first difference at %d", r.N, len(frames), len(sent), len(delivered), firstDiff(sent, delivered)))
 		return
 	}
 	if !exact {
